@@ -96,6 +96,7 @@ func VerifCRC32C(b []byte) uint32 { return crc32.Checksum(b, crc32cTable) }
 
 // scripted receiver of the resume negotiation (harness mode "plan")
 func VerifReadControlHeader(s Stream) (manifest.Manifest, error) { return readControlHeader(s) }
+func VerifWriteControlHeader(s Stream, m manifest.Manifest) error { return writeControlHeader(s, m) }
 func VerifHashFileChunk(path string, idx uint32, chunk uint32, size int64, alg byte) (uint64, error) {
 	return hashFileChunk(path, idx, chunk, size, alg)
 }
